@@ -434,6 +434,10 @@ class List(list, base.Symbolic, pg_typing.CustomTyping):
         return None
 
     new_value = self._formalized_value(index, value)
+    if ((should_insert or index >= len(self))
+        and self.max_size is not None and len(self) >= self.max_size):
+      raise ValueError(
+          self._error_message(f'List reached its max size {self.max_size}.'))
     if index < len(self):
       if should_insert:
         list.insert(self, index, new_value)
@@ -441,6 +445,7 @@ class List(list, base.Symbolic, pg_typing.CustomTyping):
       else:
         if pg_typing.MISSING_VALUE == new_value:
           # Replacing an element with MISSING_VALUE removes it.
+          self._check_min_size(1)
           list.__delitem__(self, index)
           self._reindex_children(index)
         else:
@@ -549,6 +554,14 @@ class List(list, base.Symbolic, pg_typing.CustomTyping):
       replacements = [self._formalized_value(i, v) for i, v in enumerate(value)]
       if step == 1:
         slice_size = max(0, stop - start)
+        new_size = len(self) - slice_size + len(replacements)
+        if self.max_size is not None and new_size > max(
+            self.max_size, len(self)):
+          raise ValueError(
+              self._error_message(
+                  f'Cannot assign slice: the number of elements ({new_size}) '
+                  f'exceeds max size ({self.max_size}).'))
+        self._check_min_size(len(self) - new_size)
         if slice_size < len(replacements):
           for i in range(slice_size, len(replacements)):
             replacements[i] = Insertion(replacements[i])
@@ -605,10 +618,20 @@ class List(list, base.Symbolic, pg_typing.CustomTyping):
       indices = [index if index >= 0 else index + len(self)]
     self._delete_items(indices)
 
+  def _check_min_size(self, num_to_delete: int) -> None:
+    """Raises if deleting `num_to_delete` items goes below the min size."""
+    if (self._value_spec
+        and len(self) - num_to_delete < self._value_spec.min_size):
+      raise ValueError(
+          self._error_message(
+              f'Cannot remove {num_to_delete} item(s): the list would be '
+              f'shorter than its min size ({self._value_spec.min_size}).'))
+
   def _delete_items(self, indices: typing.List[int]) -> None:
     """Deletes items at sorted indices, detaching them from the tree."""
     if not indices:
       return
+    self._check_min_size(len(indices))
     updates = []
     field = self._value_spec.element if self._value_spec else None
     for i in reversed(indices):
